@@ -181,6 +181,9 @@ type task struct{ prefix []int }
 
 // Watchdog bounds one execution; an execution that exceeds it is reported under the
 // clause "hang" (and its goroutine abandoned). Generous: executions take microseconds.
+// HangGrace is the second stage of the watchdog (see RunOne).
+var HangGrace = 12 * time.Minute
+
 var Watchdog = 240 * time.Second // generous: a loaded machine must not turn a slow execution into a "hang"; real hangs never end
 
 // RunOne executes the scenario once with the given full choice vector.
@@ -199,15 +202,25 @@ func RunOne(scn func(*Ctx), choices []int, replay bool) *Ctx {
 	select {
 	case <-done:
 	case <-time.After(Watchdog):
+		// A machine loaded by other work can make one heavy execution (C10's 100 MB messages) take
+		// minutes; a real hang never ends. So the first expiry is only a notice: the verdict "hang"
+		// needs the execution to stay unfinished for HangGrace more, during which this worker is idle.
+		fmt.Fprintf(os.Stderr, "xplor: execution slow (> %s), waiting %s more before calling it a hang: choices %v\n", Watchdog, HangGrace, choices)
+		select {
+		case <-done:
+			goto finished
+		case <-time.After(HangGrace):
+		}
 		// do not touch c any more (the abandoned goroutine still owns it)
 		h := &Ctx{prefix: choices, Attrs: map[string]string{"hang": "true"}}
 		h.points = nil
-		h.Fail("hang", "execution did not finish within %s (choices %v)", Watchdog, choices)
+		h.Fail("hang", "execution did not finish within %s (choices %v)", Watchdog+HangGrace, choices)
 		h.violations[0].Choices = choices
 		h.violations[0].Attrs = h.Attrs
 		fmt.Fprintf(os.Stderr, "xplor: execution exceeded the %s watchdog: choices %v\n", Watchdog, choices)
 		return h
 	}
+finished:
 	for i := range c.violations {
 		c.violations[i].Attrs = c.Attrs
 		c.violations[i].Choices = c.choices()
